@@ -77,3 +77,100 @@ Proof.
   split; [lra|]. split; [apply pert_std_model; lra|].
   cbn. rewrite <- !RtoC_mult. intros H. apply RtoC_inj in H. lra.
 Qed.
+
+(* ---------------------------------------------------------------- x^2 - 1 in the perturbing arithmetic: the componentwise
+   simultaneous backward error is not attainable *)
+Section Refute.
+Variable e : R.
+Hypothesis e_pos : 0 < e.
+Let f : R := 1 + e.
+Let S : R := R_sqrt.sqrt (4 * f * f * f).
+Notation O := (pert_ops e).
+
+Ltac cplx_ring := unfold RtoC, Cconj, Cmult, Cminus, Cplus, Copp, Cdiv, Cinv; cbn [fst snd]; f_equal; cbn [INR]; try ring.
+
+Lemma ex_disc : q_disc (o_sub O) (o_mul O) (o_scale O) C1 C0 (RtoC (-1)) = RtoC (4 * f * f * f).
+Proof. unfold q_disc. cbn [o_sub o_mul o_scale pert_ops]. fold f. cplx_ring. Qed.
+
+Lemma fpos : 1 < f. Proof. unfold f. lra. Qed.
+
+Lemma Spos : 0 < S /\ S * S = 4 * f * f * f.
+Proof.
+  pose proof fpos as F. assert (P : 0 < 4 * f * f * f) by (repeat apply Rmult_lt_0_compat; lra).
+  split; [apply sqrt_lt_R0; exact P | apply R_sqrt.sqrt_sqrt; lra].
+Qed.
+
+Lemma ex_sh : o_sqrt O (RtoC (4 * f * f * f)) = RtoC (S * f).
+Proof.
+  pose proof fpos as F. assert (P : 0 < 4 * f * f * f) by (repeat apply Rmult_lt_0_compat; lra).
+  cbn [o_sqrt pert_ops]. rewrite Csqrt_R by lra. fold f S. now rewrite RtoC_mult.
+Qed.
+
+Lemma ex_sgn : q_sgn (o_sub O) (o_mul O) (o_scale O) (o_sqrt O) C1 C0 (RtoC (-1)) = 1.
+Proof.
+  unfold q_sgn. rewrite ex_disc, ex_sh.
+  assert (Z : fst (o_mul O (Cconj C0) (RtoC (S * f))) = 0).
+  { cbn [o_mul pert_ops]. unfold RtoC, Cconj, Cmult. cbn [fst snd]. ring. }
+  rewrite Z. destruct (Rle_dec 0 0) as [_|N]; [reflexivity | exfalso; lra].
+Qed.
+
+Lemma ex_q : q_q (o_add O) (o_sub O) (o_mul O) (o_scale O) (o_sqrt O) C1 C0 (RtoC (-1)) = RtoC (- (S * f * f * f * f) / 2).
+Proof.
+  unfold q_q. rewrite ex_sgn, ex_disc, ex_sh. cbn [o_add o_scale pert_ops]. fold f. cplx_ring. field.
+Qed.
+
+Lemma quadratic_componentwise_simultaneous_refuted_lemma :
+  exists r0 r1 : C, poly_solve (RoundRAo e O) [RtoC (-1); C0; C1] false = Ok ([r0; r1], []) /\
+    (r0 + r1)%C <> C0 /\ r0 <> r1 /\
+    forall a' c' : C, a' <> C0 -> ~ ((a' * r0 * r0 + C0 * r0 + c')%C = C0 /\ (a' * r1 * r1 + C0 * r1 + c')%C = C0).
+Proof.
+  pose proof fpos as F. destruct Spos as [PS ES].
+  set (q := - (S * f * f * f * f) / 2).
+  assert (Nq : q <> 0).
+  { unfold q. assert (0 < S * f * f * f * f) by (repeat apply Rmult_lt_0_compat; lra). lra. }
+  assert (NqC : RtoC q <> C0) by (intros H; apply RtoC_inj in H; contradiction).
+  exists (RtoC (q * f)), (RtoC (-1 / q * f)).
+  assert (Sum : q * f + -1 / q * f <> 0).
+  { intros H. assert (E : (q * f + -1 / q * f) * q = f * (q * q - 1)) by (field; exact Nq).
+    rewrite H in E. assert (K : q * q = 1) by nra.
+    unfold q in K.
+    assert (K2 : S * S * (f * f * f * f * f * f * f * f) = 4) by nra.
+    rewrite ES in K2.
+    assert (G2 : 1 < f * f) by nra. assert (G3 : 1 < f * f * f) by nra.
+    assert (G4 : 1 < (f * f) * (f * f)) by nra.
+    assert (G8 : 1 < ((f * f) * (f * f)) * ((f * f) * (f * f))) by (revert G4; generalize ((f * f) * (f * f)); intros y G4; nra).
+    assert (G11 : 1 < (f * f * f) * (((f * f) * (f * f)) * ((f * f) * (f * f)))).
+    { revert G3 G8. generalize (f * f * f) (((f * f) * (f * f)) * ((f * f) * (f * f))). intros y z G3 G8. nra. }
+    replace (4 * f * f * f * (f * f * f * f * f * f * f * f))
+      with (4 * ((f * f * f) * (((f * f) * (f * f)) * ((f * f) * (f * f))))) in K2 by ring.
+    lra. }
+  assert (Dif : q * f <> -1 / q * f).
+  { assert (q * f < 0) by (unfold q; assert (0 < S * f * f * f * f * f) by (repeat apply Rmult_lt_0_compat; lra); nra).
+    assert (0 < -1 / q * f).
+    { unfold Rdiv. assert (/ q < 0) by (apply Rinv_lt_0_compat; unfold q; assert (0 < S * f * f * f * f) by (repeat apply Rmult_lt_0_compat; lra); lra). nra. }
+    lra. }
+  split; [|split; [|split]].
+  - unfold RoundRAo. rewrite poly_solve_deg2_eq, quadratic_solve_round_eq. rewrite ex_q. fold q.
+    destruct (Ceq_dec (RtoC q) C0) as [Z|_]; [contradiction|].
+    cbn [bind o_div pert_ops]. fold f. do 3 f_equal.
+    + replace (RtoC q / C1)%C with (RtoC q) by (field; intros H; apply RtoC_inj in H; lra).
+      now rewrite RtoC_mult.
+    + f_equal. rewrite RtoC_mult, RtoC_div by exact Nq. reflexivity.
+  - rewrite <- RtoC_plus. intros H. apply RtoC_inj in H. contradiction.
+  - intros H. apply RtoC_inj in H. contradiction.
+  - intros a' c' Ha' [H0 H1].
+    assert (K : (a' * ((RtoC (q * f) - RtoC (-1 / q * f)) * (RtoC (q * f) + RtoC (-1 / q * f))))%C = C0).
+    { transitivity ((a' * RtoC (q * f) * RtoC (q * f) + C0 * RtoC (q * f) + c') - (a' * RtoC (-1 / q * f) * RtoC (-1 / q * f) + C0 * RtoC (-1 / q * f) + c'))%C; [ring|].
+      rewrite H0, H1. ring. }
+    rewrite <- RtoC_minus, <- RtoC_plus, <- RtoC_mult in K.
+    apply (Cmult_neq_0 a' (RtoC ((q * f - -1 / q * f) * (q * f + -1 / q * f)))); [exact Ha' | | exact K].
+    intros H. apply RtoC_inj in H. apply Rmult_integral in H. destruct H; [apply Dif | apply Sum]; lra.
+Qed.
+End Refute.
+
+Lemma quadratic_componentwise_simultaneous_refuted_1024 :
+  exists r0 r1 : C, poly_solve (RoundRAo (/ 1024) (pert_ops (/ 1024))) [RtoC (-1); RtoC 0; RtoC 1] false = Ok ([r0; r1], []) /\
+    (r0 + r1)%C <> RtoC 0 /\ r0 <> r1 /\
+    forall a' c' : C, a' <> RtoC 0 ->
+      ~ ((a' * r0 * r0 + RtoC 0 * r0 + c')%C = RtoC 0 /\ (a' * r1 * r1 + RtoC 0 * r1 + c')%C = RtoC 0).
+Proof. apply quadratic_componentwise_simultaneous_refuted_lemma. lra. Qed.
